@@ -112,6 +112,10 @@ func VerifC11Faults() {
 	}
 	verifAssert(hackpadfs.WriteFullFile(src, fname, data, 0644) == nil, "WriteFullFile f")
 	source := &c10Source{fs: src, opens: map[string]int{}, faultRead: -1}
+	if verifChoice("source-reads", 2) == 1 {
+		source.short = true
+		verifTag("source", "short reads")
+	}
 	storeMem, err := mem.NewFS()
 	verifAssert(err == nil, "NewFS")
 	store := &c11Store{fs: storeMem, faultAt: -1}
@@ -163,6 +167,16 @@ func VerifC11Faults() {
 	source.faultRead, store.faultAt = -1, -1
 	if !fired {
 		verifReach("fault-not-reached")
+		// no fault: the fill reported success, so later opens serve the complete file
+		verifAssert(err == nil, "a fill without any fault failed")
+		if f != nil {
+			_ = f.Close()
+		}
+		g, gerr := cfs.Open(fname)
+		verifAssert(gerr == nil, "re-open after a successful fill failed")
+		got, rerr := c10ReadAll(g, 700)
+		_ = g.Close()
+		verifAssert(rerr == nil && c10Equal(got, data), "an Open after a successful fill served a truncated file")
 		return
 	}
 	verifReach("fault-fired")
